@@ -94,7 +94,11 @@ func modelRunBubble(tp *core.Tape, e *core.Env, cfg nodeCfg) (ops []opRec) {
 		rt, err := n.SC.GetRuntime()
 		if err != nil {
 			if !n.HeadErr {
-				e.Undecided("GET runtimeinfo failed: %v", err)
+				if e.Property == "C10" {
+					e.Violate("runtime", "field=answer,after="+op, "after %s: GET runtimeinfo fails although nothing is wrong with the sidecar or its Prometheus: %v", op, err)
+				} else {
+					e.Undecided("GET runtimeinfo failed: %v", err)
+				}
 			}
 			return
 		}
@@ -464,6 +468,17 @@ func modelRunBubble(tp *core.Tape, e *core.Env, cfg nodeCfg) (ops []opRec) {
 			n.Head = int64(tp.Choose("prom_head", 6)) * 9
 			e.Logf("op %d advance %s head=%d", i, d, n.Head)
 			ops = append(ops, opRec{"advance", d.String()})
+			if tp.Bool("prom_api_down_for_one_request", 1, 6) {
+				// the sidecar's Prometheus does not answer its API for one runtimeinfo request: that request
+				// fails; the next one, with Prometheus back, is answered properly again
+				n.HeadErr = true
+				_, herr := n.SC.GetRuntime()
+				n.HeadErr = false
+				e.Fault("prom_api_down")
+				if herr == nil && e.Property == "C10" {
+					e.Violate("runtime", "field=head,after=prometheus-api-down", "the sidecar's Prometheus API was down but runtimeinfo was answered as if nothing had happened")
+				}
+			}
 			check("read")
 		}
 	}
